@@ -147,6 +147,14 @@ check("C10", "fault_enumeration",
       "Fault enumeration over a finite hostile pool; anything outside the pool is not covered. OSError is environment (C18).",
       "exception-type monitor at the API boundary under exhaustive single-cell fault injection", "DESIGN.md 5/C10")
 
+check("C17", "exploration",
+      "Each logical case (CID contents + rectangular table of accepted and rejected text cells) is stored in all 3 x 3 "
+      "combinations of CID storage {csv, ods, xlsx} and data format {delimited, ods, excel}; the real loader and reader run on "
+      "every combination and the recorded interfaces / per-row verdicts / returned values are compared with each other and "
+      "with the row model.",
+      "Relational oracle over nine executions per case; independent ODS and XLSX producers.",
+      "relational comparison of nine recorded executions per case + row model", "DESIGN.md 5/C17")
+
 NOT_YET = "check not built yet in this session; see DESIGN.md section 5 for the planned monitor"
 
 def main():
